@@ -38,7 +38,7 @@ type C14Case struct {
 
 func sigType(t int) reflect.Type {
 	switch {
-	case t < engine.NumTypes:
+	case t < 8: // the original universe T0..t5, I0, I1 (numbering kept stable for the corpus)
 		return engine.Types[t]
 	case t == 8:
 		return reflect.TypeOf(0)
